@@ -125,6 +125,39 @@ func c06History(r gen.R, u uhppote.IUHPPOTE, cfg ClientCfg, serial uint32, other
 	if len(otherIPs) > 0 && r.Chance(0.45) {
 		n = 1 + r.Pick(3)
 	}
+	if r.Chance(0.3) {
+		// the application looks at the controller list and edits what it was given: the list is its own copy - where the client
+		// sends the judged operation is decided by the configuration the client was built with
+		func() {
+			defer func() { recover() }()
+			list := u.DeviceList()
+			what := "DeviceList(): "
+			for id, dev := range list {
+				switch r.Pick(3) {
+				case 0:
+					delete(list, id)
+					what += fmt.Sprintf("deleted %d; ", id)
+				case 1:
+					dev.Protocol = map[string]string{"tcp": "udp"}[dev.Protocol]
+					if dev.Protocol == "" {
+						dev.Protocol = "tcp"
+					}
+					if len(otherIPs) > 0 {
+						ip := otherIPs[r.Pick(len(otherIPs))]
+						dev.Address = types.ControllerAddr{AddrPort: netip.AddrPortFrom(netip.AddrFrom4(ip), 60000)}
+					}
+					list[id] = dev
+					what += fmt.Sprintf("rerouted %d; ", id)
+				}
+			}
+			if _, ok := list[serial]; !ok && len(otherIPs) > 0 {
+				ip := otherIPs[r.Pick(len(otherIPs))]
+				list[serial] = uhppote.Device{Name: "x", DeviceID: serial, Address: types.ControllerAddr{AddrPort: netip.AddrPortFrom(netip.AddrFrom4(ip), 60000)}, Protocol: "udp", TimeZone: time.UTC}
+				what += fmt.Sprintf("added %d", serial)
+			}
+			hist = append(hist, what)
+		}()
+	}
 	for h := 0; h < n; h++ {
 		target := serial
 		if len(cfg.Devices) > 0 && r.Chance(0.4) {
@@ -154,6 +187,17 @@ func c06History(r gen.R, u uhppote.IUHPPOTE, cfg ClientCfg, serial uint32, other
 		}
 	}
 	return hist
+}
+
+// c06NetCalls: the entries of a history that put a request on the network (editing the controller list does not).
+func c06NetCalls(hist []string) int {
+	n := 0
+	for _, h := range hist {
+		if !strings.HasPrefix(h, "DeviceList()") {
+			n++
+		}
+	}
+	return n
 }
 
 // c06Noise: datagrams a correct client ignores (broadcast path) that the farm sends ahead of the valid reply -
@@ -307,6 +351,10 @@ func c06Loopback(c *Ctx) {
 				if cur.op == nil || cur.op.NoReply || len(req) != 64 {
 					return nil
 				}
+				if cur.delay < -1 && ep.Proto == "tcp" {
+					// the controller drops the connection - closed or reset - without answering the request it has read
+					return []farm.Action{{Close: cur.delay == -2, Reset: cur.delay == -3}}
+				}
 				if cur.delay < 0 {
 					return nil
 				}
@@ -421,10 +469,10 @@ func c06Loopback(c *Ctx) {
 					// let the farm see (and answer) everything the earlier calls sent before the judged call starts
 					// every earlier call put exactly one request on the network: wait (bounded) until the farm has logged them all -
 					// a TCP request of a call that does not wait for a reply can be read by the farm well after the call returned
-					for q := 0; q < 500 && total() < histBefore+int64(len(hist)); q++ {
+					for q := 0; q < 500 && total() < histBefore+int64(c06NetCalls(hist)); q++ {
 						time.Sleep(2 * time.Millisecond)
 					}
-					if total() < histBefore+int64(len(hist)) {
+					if total() < histBefore+int64(c06NetCalls(hist)) {
 						c.Res.Count("loopback:diag:history-arrivals-missing-after-1s", 1)
 						c.Res.Note("diag-hist", fmt.Sprintf("%v state=%s proto=%s cfg=%+v", hist, dv.state, dv.proto, cfg))
 					}
@@ -448,6 +496,10 @@ func c06Loopback(c *Ctx) {
 					cur.delay, replyClass = T*65/100, "after-0.65T"
 				case x < 2:
 					cur.delay, replyClass = -1, "never"
+				case x < 3:
+					cur.delay, replyClass = -2, "never(tcp: connection closed after the request was read)"
+				case x < 4:
+					cur.delay, replyClass = -3, "never(tcp: connection reset after the request was read)"
 				}
 				c.Res.Count("loopback:reply:"+replyClass, 1)
 				nNoise := len(cur.noise)
